@@ -37,6 +37,9 @@ impl Monitor for C09 {
                 .is_some_and(|c| c.packet_log.contains_key(&seq))
         };
         let torn = self.truth.torn_down_now.clone();
+        // what every link held when the step began (the model is resynchronised after each step)
+        let held_pre: std::collections::HashMap<u64, std::collections::BTreeSet<i32>> =
+            self.model.sets.iter().map(|(k, v)| (*k, v.clone())).collect();
         let evs = self.model.apply_step(ctx, &torn, &self.truth.removed_now.clone(), &real_holds);
         for c in world.conns.iter() {
             let real: std::collections::BTreeSet<i32> = c.packet_log.keys().copied().collect();
@@ -148,7 +151,23 @@ impl Monitor for C09 {
             }
             // ---- delivery proof: only an earned SRTLA ACK or an answered keepalive ----
             if post.proof_ms != pre.proof_ms {
-                let earned = evs.iter().any(|e| matches!(e, SetEv::SrtlaAck { retired_on: Some(r), .. } if *r == pre.conn_id));
+                // With one datagram per step the set model says exactly who earned the ACK. With several
+                // datagrams in one step (NAK and ACK lists naming the same numbers) the model's
+                // observation-based choices can be confounded, so the rule is relaxed to: some SRTLA
+                // ACK of this step names a number the link held when the step began (or sent in it).
+                let strict = evs.iter().any(|e| matches!(e, SetEv::SrtlaAck { retired_on: Some(r), .. } if *r == pre.conn_id));
+                let earned = if processed.len() <= 1 {
+                    strict
+                } else {
+                    strict
+                        || processed.iter().any(|(_, b)| {
+                            ptype(b) == Some(T_SRTLA_ACK)
+                                && super::setmodel::ref_parse_srtla_ack(b).iter().any(|s| {
+                                    held_pre.get(&pre.conn_id).is_some_and(|h| h.contains(&(*s as i32)))
+                                        || evs.iter().any(|e| matches!(e, SetEv::Sent { conn, seqs } if *conn == pre.conn_id && seqs.contains(&(*s as i32))))
+                                })
+                        })
+                };
                 let mut waiting = pre.waiting_ka;
                 let mut answered = false;
                 for (c, b) in &processed {
@@ -178,8 +197,9 @@ impl Monitor for C09 {
                         "",
                         ctx.idx,
                         format!(
-                            "link {:x}: delivery-proof stamp moved {} -> {} without an earned SRTLA ACK or an answered keepalive in this step",
-                            pre.conn_id, pre.proof_ms, post.proof_ms
+                            "link {:x}: delivery-proof stamp moved {} -> {} without an earned SRTLA ACK or an answered keepalive in this step (uplink datagrams: {:?})",
+                            pre.conn_id, pre.proof_ms, post.proof_ms,
+                            processed.iter().map(|(c, b)| format!("{:x}:{:x?}/{}B:{}", c & 0xffff, ptype(b), b.len(), crate::lsim::plan::hex(&b[..b.len().min(24)]))).collect::<Vec<_>>()
                         ),
                     );
                 }
